@@ -13,7 +13,7 @@
    [name] with label values [lvs], as Gather shows it.
    [trun c (h ++ [TPass])]: the state after the history and a report pass. *)
 From Coq Require Import ZArith List Bool.
-From Tally Require Import Base.Obs Base.Search Model.Buckets Model.Prom
+From Tally Require Import Base.ObsCore Base.Search Model.Buckets Model.Prom
   Proof.PromP Proof.PromObjP Proof.PromSysP Proof.PromThmP Proof.PromDecP.
 Import ListNotations.
 Open Scope Z_scope.
